@@ -519,5 +519,54 @@ def r9_scan_done_flag(chk: Check) -> None:
             chk.ok("C08.R9", flag, construct, f"writers: {sorted(w.name for w in writers)}", flag.loc())
 
 
+def r10_security_parameters(chk: Check) -> None:
+    from . import shared
+
+    P = chk.project
+    SEC = "specs/openapi/security.py"
+
+    def lookup(c: ast.Call) -> str | None:
+        if last_attr(c) == "get" and c.args and const_str(c.args[0]) == "security" and "operation" in unparse(c.func):
+            return "the operation's own `security` (an EMPTY array removes the top-level requirement)"
+        return None
+
+    shared.presence_not_truthiness_rule(
+        chk, "C08.R10", [f for f in P.module(SEC).functions.values()], lookup,
+        "EFFECTIVE SECURITY PARAMETERS: (a) the operation-level `security` overrides the top-level one whenever it is PRESENT - `security: []` means `no credentials for this operation`, so it is tested with `is not None`, not by truthiness; (b) the per-version tables agree with the specifications (Swagger 2.0: apiKey in header / query, `basic`, 2.0 parameters; OpenAPI 3: apiKey in header / cookie / query, `http`, 3.0 parameters); (c) generated security parameters are required and named / located as the definition says (`Authorization` header for HTTP auth)",
+        "`security: []` on an operation is treated as `not given`: the top-level requirement applies and an Authorization / api-key parameter is generated (and required) for an operation that documents none", 1)
+    TABLE = {
+        "BaseSecurityProcessor": ({"header", "query"}, "basic", "OpenAPI20Parameter"),
+        "OpenAPISecurityProcessor": ({"header", "cookie", "query"}, "http", "OpenAPI30Parameter"),
+    }
+    mod = P.module(SEC)
+    classes = {n.name: n for n in mod.tree.body if isinstance(n, ast.ClassDef)}
+    for cname, (locs, http, pcls) in TABLE.items():
+        cls = classes.get(cname)
+        if cls is None:
+            chk.undecided("C08.R10", f"{SEC}:{cname}", "class attribute table", "class not found")
+            continue
+        vals: dict[str, ast.AST] = {}
+        for st in cls.body:
+            tgt = st.target if isinstance(st, ast.AnnAssign) else (st.targets[0] if isinstance(st, ast.Assign) else None)
+            if isinstance(tgt, ast.Name) and getattr(st, "value", None) is not None:
+                vals[tgt.id] = st.value  # type: ignore[assignment]
+        got_l = {const_str(e) for e in getattr(vals.get("api_key_locations"), "elts", [])} if "api_key_locations" in vals else None
+        chk.decide(None if got_l is None else got_l == locs, "C08.R10", f"{SEC}:{cname}", f"{cname}.api_key_locations = {sorted(locs)}",
+                   f"api keys are accepted in {sorted(got_l or [])}: a documented api key in {sorted(locs - (got_l or set()))} gets no parameter / one in {sorted((got_l or set()) - locs)} is invented", f"{SEC}:{cls.lineno}")
+        got_h = const_str(vals["http_security_name"]) if "http_security_name" in vals else None
+        chk.decide(None if got_h is None else got_h == http, "C08.R10", f"{SEC}:{cname}", f"{cname}.http_security_name = {http!r}", f"HTTP auth definitions are looked for under type {got_h!r}: no Authorization parameter is ever added", f"{SEC}:{cls.lineno}")
+        got_p = unparse(vals["parameter_cls"]) if "parameter_cls" in vals else None
+        chk.decide(None if got_p is None else got_p == pcls, "C08.R10", f"{SEC}:{cname}", f"{cname}.parameter_cls = {pcls}", f"security parameters are built as {got_p}: the other version's keyword whitelist / `schema` nesting is applied", f"{SEC}:{cls.lineno}")
+    mh = P.func(f"{SEC}:make_auth_header")
+    d = next((r for r in simple_return_expr(mh) if isinstance(r, ast.Dict)), None)
+    kv = {const_str(k): unparse(v) for k, v in zip(d.keys, d.values) if k is not None} if d is not None else {}
+    chk.decide(None if d is None else (kv.get("name") == "'Authorization'" and kv.get("in") == "'header'" and kv.get("required") == "True"), "C08.R10", mh, "HTTP auth parameter: required `Authorization` header", f"built as {kv}", mh.loc())
+    mk = P.func(f"{SEC}:make_api_key_schema")
+    d = next((r for r in simple_return_expr(mk) if isinstance(r, ast.Dict)), None)
+    kv = {const_str(k): unparse(v) for k, v in zip(d.keys, d.values) if k is not None} if d is not None else {}
+    p0 = params_of(mk.node)[0] if params_of(mk.node) else "definition"
+    chk.decide(None if d is None else (kv.get("name") == f"{p0}['name']" and kv.get("in") == f"{p0}['in']" and kv.get("required") == "True"), "C08.R10", mk, "api key parameter: required, named and located as the definition says", f"built as {kv}", mk.loc())
+
+
 def rules(tier: str) -> list:  # type: ignore[type-arg]
-    return [r1_scope_pairs, r2_merge_order, r3_constructors, r4_no_drop, r5_yaml, r6_iteration_local_scope, r7_scope_not_held_across_yield, r8_lazy_fields_single_source, r9_scan_done_flag, rfwd_forwarding]
+    return [r1_scope_pairs, r2_merge_order, r3_constructors, r4_no_drop, r5_yaml, r6_iteration_local_scope, r7_scope_not_held_across_yield, r8_lazy_fields_single_source, r9_scan_done_flag, r10_security_parameters, rfwd_forwarding]
